@@ -81,6 +81,40 @@ fn main() {
         }
         return;
     }
+    if a[1] == "--wrap" {
+        // replay --wrap <pairing|fast|prepared> <modes>: representatives a = normalised, j = un-normalised
+        // library value, o = non-canonical identity (X - X); compares with the value on normalised inputs / one
+        use sm9_core::{fast_pairing, pairing, Fr, G2Prepared, Group, Gt, G1, G2};
+        let k = |n: u8| Fr::from_slice(&[n]).unwrap();
+        let mk1 = |m: u8| -> (G1, Option<G1>) {
+            let base = G1::one() * k(5);
+            let mut n = base; n.normalize();
+            match m { b'a' => (n, Some(n)), b'o' => (base - base, None), _ => (base + base - n, Some(n)) }
+        };
+        let mk2 = |m: u8| -> (G2, Option<G2>) {
+            let base = G2::one() * k(7);
+            let mut n = base; n.normalize();
+            match m { b'a' => (n, Some(n)), b'o' => (base - base, None), _ => (base + base - n, Some(n)) }
+        };
+        let mb = a[3].as_bytes();
+        let ((p, pn), (q, qn)) = (mk1(mb[0]), mk2(mb[1]));
+        let run = |p: G1, q: G2| -> Gt {
+            match a[2].as_str() {
+                "pairing" => pairing(p, q),
+                "fast" => fast_pairing(p, q),
+                _ => { let pr = G2Prepared::from(q); let x = pr.pairing(&p); let y = pr.pairing(&p); if x != y { println!("MISMATCH prepared reuse"); } x }
+            }
+        };
+        let r = std::panic::catch_unwind(|| run(p, q));
+        match r {
+            Err(_) => println!("PANIC in {}", a[2]),
+            Ok(g) => {
+                let want = match (pn, qn) { (Some(pn), Some(qn)) => pairing(pn, qn), _ => Gt::one() };
+                if g == want { println!("OK {} {}", a[2], a[3]); } else { println!("MISMATCH {}({}) differs from the value on normalised inputs / one", a[2], a[3]); }
+            }
+        }
+        return;
+    }
     if a[1] == "--selftest" {
         // harness self-test (NOT a verification claim): run every body natively on random inputs
         let n: u64 = a.get(2).and_then(|x| x.parse().ok()).unwrap_or(200);
